@@ -74,10 +74,17 @@ FAMILIES = ["sequential-int", "sequential-str", "zero-padded", "uuid-random", "u
             "two-field", "three-field", "common-prefix", "float-ids"]
 
 
-def program(vec, salt, fields):
+def program(vec, salt, fields, shape="plain"):
     s = f"salt: {render_lit(Lit(salt, salt))} " if salt is not None else ""
     groups = ", ".join(f"{i} weighted {w}" for i, w in enumerate(vec))
-    return f"def pop {{ {s}splitters: {', '.join(fields)} return {groups} }}"
+    if shape == "plain":
+        body = f"return {groups}"
+    elif shape == "splitter-in-condition":
+        # the splitter field is also read by the routing: still one population, one weight vector
+        body = f'if {fields[-1]} != "__no_such_unit__" {{ return {groups} }} else {{ return {groups} }}'
+    else:  # "condition-field": routing on a constant extra field
+        body = f'if tier == "std" {{ return {groups} }} else {{ return {groups} }}'
+    return f"def pop {{ {s}splitters: {', '.join(fields)} {body} }}"
 
 
 def assign(im, text, pop):
@@ -115,8 +122,12 @@ def run(ctx):
         ws = [frac(w) for w in vec]
         W = sum(ws)
         results = {}
+        shape = rnd.choice(["plain", "plain", "splitter-in-condition", "condition-field"])
+        if shape == "condition-field":
+            pop = [dict(e, tier="std") for e in pop]
+        ctx.seen("program_shapes", shape)
         for salt in (s1, s2):
-            text = program(vec, salt, fields)
+            text = program(vec, salt, fields, shape)
             got, err = assign(im, text, pop)
             ctx.evaluated(len(pop))
             if got is None:
@@ -128,7 +139,7 @@ def run(ctx):
                 counts[g] += 1
             expected = [float(w / W) * len(pop) for w in ws]
             res, zero_hits = stats.gof(counts, expected)
-            conf = dict(family=fam, offset=offset, salt=salt, weights=vec, n=len(pop))
+            conf = dict(family=fam, offset=offset, salt=salt, weights=vec, n=len(pop), shape=shape)
             if zero_hits:
                 ctx.violation("zero-weight-group-observed", dict(conf, counts=counts), mechanism="C04/proportions-off")
                 break
@@ -152,7 +163,7 @@ def run(ctx):
             for x, y in zip(a, b):
                 table[x][y] += 1
             res = stats.independence(table)
-            conf = dict(family=fam, offset=offset, salts=[s1, s2], weights=vec, n=len(pop))
+            conf = dict(family=fam, offset=offset, salts=[s1, s2], weights=vec, n=len(pop), shape=shape)
             if res is None:
                 ctx.count("independence/inconclusive-too-few-cells")
             else:
@@ -185,7 +196,10 @@ def replay(ctx, kind, w):
     salts = w.get("salts") or [w.get("salt")]
     res = {}
     for s in salts:
-        got, err = assign(im, program(vec, s, fields), pop)
+        shape = w.get("shape", "plain")
+        if shape == "condition-field":
+            pop = [dict(e, tier="std") for e in pop]
+        got, err = assign(im, program(vec, s, [f for f in fields if f != "tier"], shape), pop)
         if got is None:
             ctx.violation("evaluation-failed", dict(error=err), mechanism="C04/evaluation-failed")
             return
